@@ -105,6 +105,17 @@ def pmap(func, items, workers=None, init=None):
                     view = view[n:]
                 os.close(wfd)
             finally:
+                if os.environ.get("VERIF_COV"):
+                    # anchor-coverage audit (tools/anchorcov.py): a forked
+                    # worker has to save what it measured itself
+                    try:
+                        import coverage
+                        cov = coverage.Coverage.current()
+                        if cov is not None:
+                            cov.stop()
+                            cov.save()
+                    except Exception:
+                        pass
                 os._exit(code)
         os.close(wfd)
         kids.append((pid, r))
